@@ -58,7 +58,7 @@ def _write_arith(ck: Check, repo: Repo, rb: Cls, add: Fn) -> None:
     stores = [n for n in cfg.live_nodes() if n.kind == "stmt" and isinstance(n.ast, ast.Assign)
               and isinstance(n.ast.targets[0], ast.Subscript) and dotted(n.ast.targets[0].value).startswith("self.")
               and isinstance(n.ast.targets[0].slice, ast.Slice)]
-    ck.floor("C09.1", len(stores), 3, "slice stores into the storage in ReplayBuffer.add")
+    ck.floor("C09.1", len(stores), 3, "slice stores into the storage in ReplayBuffer.add", fn=add)
     storage_attr = dotted(stores[0].ast.targets[0].value)
     # capacity: leading dimension of the storage as created by _init
     _init = rb.methods.get("_init")
@@ -176,7 +176,7 @@ def _sample(ck: Check, repo: Repo, rb: Cls) -> None:
     cfg = CFG(sample.node)
     tb = TermBuilder(repo, sample, cfg=cfg, depth=0)
     perms = [c for c in calls_in(sample.node) if call_name(c) in ("torch.randperm", "np.random.permutation")]
-    ck.floor("C09.3", len(perms), 1, "permutation draw in ReplayBuffer.sample")
+    ck.floor("C09.3", len(perms), 1, "permutation draw in ReplayBuffer.sample", fn=sample)
     for c in perms:
         n = cfg.node_of(c)
         t = tb.term(c.args[0], n)
@@ -287,7 +287,7 @@ def _multi_agent(ck: Check, repo: Repo) -> None:
     # sample without replacement
     smp = cls.methods["sample"]
     calls = [c for c in calls_in(smp.node) if call_name(c).startswith("random.") or call_name(c).startswith("np.random.")]
-    ck.floor("C09.5", len(calls), 1, "random draw in MultiAgentReplayBuffer.sample")
+    ck.floor("C09.5", len(calls), 1, "random draw in MultiAgentReplayBuffer.sample", fn=smp)
     for c in calls:
         ok = call_name(c) == "random.sample" and dotted(c.args[0]) == f"self.{memattr}" and dotted(get_kw(c, "k", 1)) == "batch_size"
         ck.ob("C09.5", smp, c, ok, "sampling draws batch_size distinct stored transitions (random.sample over the memory)")
@@ -295,7 +295,7 @@ def _multi_agent(ck: Check, repo: Repo) -> None:
     ro = cls.methods["_reorganize_dicts"]
     fors = [n for n in walk_no_nested(ro.node) if isinstance(n, ast.For)]
     outer = [f for f in fors if isinstance(f.iter, ast.Call) and call_name(f.iter) == "range"]
-    ck.floor("C09.5", len(outer), 1, "per-environment loop in _reorganize_dicts")
+    ck.floor("C09.5", len(outer), 1, "per-environment loop in _reorganize_dicts", fn=ro)
     ivar = outer[0].target.id if isinstance(outer[0].target, ast.Name) else None
     inner = [f for f in ast.walk(outer[0]) if isinstance(f, ast.For) and isinstance(f.iter, ast.Call) and call_name(f.iter) == "enumerate"]
     ok = bool(inner) and dotted(inner[0].iter.args[0]) == "args"
@@ -315,6 +315,33 @@ def _multi_agent(ck: Check, repo: Repo) -> None:
         items = [f for f in ast.walk(inner[0]) if isinstance(f, ast.For) and isinstance(f.iter, ast.Call) and last_attr(f.iter) == "items"]
         ck.ob("C09.5", ro, items[0] if items else inner[0], bool(items) and dotted(items[0].iter.func.value) == argvar,
               "agents (keys) are read from the field being reorganised")
+    # the number of environment entries must be read from an array leaf, after the same dict / tuple dispatch the element code uses
+    rcfg = CFG(ro.node)
+    rng = outer[0].iter.args[0] if outer and outer[0].iter.args else None
+    okn = False
+    whyn = "range bound not found"
+    if isinstance(rng, ast.Name):
+        dn = [d for d in rcfg.defs_reaching(rcfg.node_of(outer[0].iter) or rcfg.entry, rng.id)]
+        vals = [rcfg.value_of_def(d, rng.id) for d in dn]
+        lens = [v for v in vals if isinstance(v, ast.Call) and call_name(v) == "len" and v.args]
+        if lens and len(lens) == len(vals):
+            okn = True
+            for v, d in zip(lens, dn):
+                a = v.args[0]
+                if isinstance(a, ast.Name):
+                    adefs = rcfg.defs_reaching(d, a.id)
+                    conds = " ".join(ast.unparse(g) for x in adefs for g, pol, _ in rcfg.guards_at(x))
+                    srcs = " ".join(ast.unparse(x.ast) for x in adefs)
+                    if not ("dict" in conds + srcs and "tuple" in conds + srcs and len(adefs) >= 2):
+                        okn = False
+                        whyn = f"`{a.id}` is measured without narrowing dict / tuple observations to an array leaf"
+                else:
+                    okn = False
+                    whyn = (f"`{short(v, 70)}` measures the first agent's value of the first field directly: for Dict observations that is the number of keys, "
+                            "for Tuple observations the number of members, not the number of environments, so too few (or too many) transitions are stored")
+    ck.ob("C09.5", ro, rng if rng is not None else ro.node, okn,
+          "the number of per-environment transitions is the length of an array leaf (dict / tuple observations are narrowed first, like the element code does)",
+          detail=whyn, construct="_reorganize_dicts: number of environment entries")
     sv = cls.methods["save_to_memory_vect_envs"]
     zips = [n for n in walk_no_nested(sv.node) if isinstance(n, ast.For) and isinstance(n.iter, ast.Call) and call_name(n.iter) == "zip"]
     ok = bool(zips) and any(call_name(c) == "self._add" and c.args and isinstance(c.args[0], ast.Starred) and dotted(c.args[0].value) == dotted(zips[0].target)
@@ -325,7 +352,7 @@ def _multi_agent(ck: Check, repo: Repo) -> None:
     reads = [c for c in calls_in(pt.node) if call_name(c) == "getattr" and len(c.args) == 2]
     stores = [n for n in ast.walk(pt.node) if isinstance(n, ast.Assign) and isinstance(n.targets[0], ast.Subscript)
               and isinstance(n.targets[0].value, ast.Subscript) and dotted(n.targets[0].value.value) == "transition"]
-    ck.floor("C09.5", len(reads), 1, "field read in _process_transition")
+    ck.floor("C09.5", len(reads), 1, "field read in _process_transition", fn=pt)
     for c in reads:
         par = [x for x in ast.walk(pt.node) if isinstance(x, ast.Subscript) and x.value is c]
         fvar = dotted(c.args[1])
@@ -420,6 +447,9 @@ VARIANTS = [
     ("sample-view", _RBF, "        samples: TensorDict = self._storage[indices]\n\n        if return_idx:", "        samples: TensorDict = self._storage[:batch_size]\n\n        if return_idx:", "fire", "C09.4"),
     ("per-sample-no-clone-ok", _RBF, "        samples = samples.clone()\n", "", "silent", None),
     ("temp-names-ok", _RBF, "        start = self._cursor\n        end = self._cursor + _n_transitions\n", "        start = self._cursor\n        width = _n_transitions\n        end = start + width\n", "silent", None),
+    ("ma-count-container", _MAF, "        num_entries = len(first)\n", "        num_entries = len(next(iter(args[0].values())))\n", "fire", "C09.5"),
+    ("ma-count-no-tuple", _MAF, "        elif isinstance(first, tuple):\n            first = first[0]\n        num_entries", "        num_entries", "fire", "C09.5"),
+    ("ma-count-renamed-ok", _MAF, "        num_entries = len(first)\n        for i in range(num_entries):", "        n_envs = len(first)\n        for i in range(n_envs):", "silent", None),
     ("ma-choices", _MAF, "experiences = random.sample(self.memory, k=batch_size)", "experiences = random.choices(self.memory, k=batch_size)", "fire", "C09.5"),
     ("ma-unbounded", _MAF, "self.memory: Deque = deque(maxlen=memory_size)", "self.memory: Deque = deque()", "fire", "C09.5"),
     ("ma-appendleft", _MAF, "        self.memory.append(e)", "        self.memory.appendleft(e)", "fire", "C09.5"),
